@@ -227,8 +227,11 @@ def merge(p, st):
         p.measured = {}
     p.evaluations += st['evaluations']
     p.nontrivial |= st['nontrivial']
+    p._merged_per_key = getattr(p, '_merged_per_key', {})
     for v in st['violations']:
-        if len(p.violations) < 200:
+        k = v.get('key')
+        p._merged_per_key[k] = p._merged_per_key.get(k, 0) + 1
+        if p._merged_per_key[k] <= 8 and len(p.violations) < 400:      # no key (a known finding, say) crowds out another
             p.violations.append(v)
     have = {s['clause'] for s in p.samples}
     for s in st['samples']:
